@@ -9,10 +9,12 @@ CONSTANTS Widths,      \* configurations explored, coded  2 * width + (1 if big 
 MCConfigs == {[width |-> c \div 2, bigEndian |-> (c % 2 = 1), epNum |-> 1, devAddr |-> 0] : c \in Widths}
 Vals == {v % (2 ^ Width) : v \in Values}
 
-\* traffic that does not concern the endpoint; the last one is another device's acknowledged IN transaction
-MCOthers == {<<"IN", DevAddr, EpNum + 1, FALSE>>, <<"IN", DevAddr + 1, EpNum, FALSE>>,
-             <<"OUT", DevAddr, EpNum, FALSE>>, <<"SETUP", DevAddr, EpNum, FALSE>>,
-             <<"IN", DevAddr + 1, EpNum, TRUE>>}
+\* traffic that does not concern the endpoint <<pid, addr, ep, ack, hd>>: unanswered tokens, an acknowledged IN
+\* transaction of another endpoint of this device and of another device, OUT / SETUP transactions with data
+MCOthers == {<<"IN", DevAddr, EpNum + 1, FALSE, FALSE>>, <<"IN", DevAddr + 1, EpNum, FALSE, FALSE>>,
+             <<"OUT", DevAddr, EpNum, FALSE, TRUE>>, <<"SETUP", DevAddr, EpNum, FALSE, FALSE>>,
+             <<"IN", DevAddr, EpNum + 1, TRUE, FALSE>>, <<"OUT", DevAddr, EpNum + 1, FALSE, TRUE>>,
+             <<"IN", DevAddr + 1, EpNum, TRUE, FALSE>>}
 
 MCSetSignal == \E v \in Vals : v # sig /\ SetSignal(v)
 \* quiet poll: the signal is stable while the request arrives
@@ -23,7 +25,7 @@ MCPoll      == /\ \E ack \in BOOLEAN, got \in BOOLEAN :
 MCPollRace  == \E v2 \in Vals \ {sig}, ack \in BOOLEAN, got \in BOOLEAN :
                    \E val \in (IF pending = <<>> THEN {sig, v2} ELSE {pending[1]}) :
                        Poll({sig, v2}, val, ack, got) /\ sig' = v2
-MCOther     == \E o \in MCOthers : Other(o[1], o[2], o[3], o[4])
+MCOther     == \E o \in MCOthers : Other(o[1], o[2], o[3], o[4], o[5])
 MCSof       == SofEvent
 MCNext == MCSetSignal \/ MCPoll \/ MCPollRace \/ MCOther \/ MCSof
 MCSpec == Init /\ [][MCNext]_vars
